@@ -35,13 +35,10 @@ impl TryFrom<Repr> for UBig {
     type Error = ConversionError;
     #[inline]
     fn try_from(value: Repr) -> Result<Self, Self::Error> {
-        let (sign, mag) = value.numerator.into_parts();
-        if sign == Sign::Negative {
+        if value.numerator.sign() == Sign::Negative {
             Err(ConversionError::OutOfBounds)
-        } else if mag.is_one() {
-            Ok(mag)
         } else {
-            Err(ConversionError::LossOfPrecision)
+            IBig::try_from(value)?.try_into()
         }
     }
 }
@@ -51,7 +48,12 @@ impl TryFrom<Repr> for IBig {
     #[inline]
     fn try_from(value: Repr) -> Result<Self, Self::Error> {
         if value.denominator.is_one() {
-            Ok(value.numerator)
+            return Ok(value.numerator);
+        }
+        // Relaxed keeps common odd factors: 6/3 is an integer
+        let (q, r) = (&value.numerator).div_rem(&value.denominator);
+        if r.is_zero() {
+            Ok(q)
         } else {
             Err(ConversionError::LossOfPrecision)
         }
